@@ -137,6 +137,10 @@ type Server struct {
 	Sched         Sched
 	NoJournal     bool
 	LockWaitLimit int // free-running mode: give up a lock wait after this many wake-ups (0 = wait forever)
+	// SequentialWaits: the harness runs one client thread at a time, so the owner of a contended lock can never
+	// release it while the requester waits: the wait ends as innodb_lock_wait_timeout would end it (error 1205).
+	SequentialWaits bool
+	LockTimeouts    int // number of such timeouts (a leaked transaction was holding a lock)
 }
 
 func NewServer(addr, dbName string) *Server {
@@ -415,6 +419,10 @@ func (s *Server) acquire(tx *txn, name string) error {
 				return o == nil || o == tx
 			})
 			s.mu.Lock()
+		} else if s.SequentialWaits {
+			tx.waits = nil
+			s.LockTimeouts++
+			return myErr(1205, "Lock wait timeout exceeded; try restarting transaction")
 		} else {
 			spins++
 			if s.LockWaitLimit > 0 && spins > s.LockWaitLimit {
